@@ -87,7 +87,7 @@ class C07(Prop):
     harness_bin = "router"
     harness_sub = "c07"
     build_flags = ("-race",)
-    sizes = {"quick": 500, "thorough": 6000}
+    sizes = {"quick": 750, "thorough": 8000}
     widen_factor = 2
     coqchk = True
     gen_names = ("g_router_buflen_bad", "g_trysend_cases", "g_trysend_has_default", "g_sendifmatch_method",
